@@ -247,3 +247,80 @@ func init() {
 }
 
 func describeType(t types.Type) string { return fmt.Sprint(t) }
+
+func init() {
+	// sync/atomic on plain memory cells (the executor is sequential)
+	for _, ty := range []string{"Int32", "Uint32", "Int64", "Uint64", "Uintptr"} {
+		ty := ty
+		intrinsics["sync/atomic.Load"+ty] = func(e *Exec, args []Value, st string) Value { return e.load(args[0], st) }
+		intrinsics["sync/atomic.Store"+ty] = func(e *Exec, args []Value, st string) Value { e.store(args[0], args[1], st); return nil }
+		intrinsics["sync/atomic.Add"+ty] = func(e *Exec, args []Value, st string) Value {
+			v := BinBV(OpAdd, e.load(args[0], st).(*Term), args[1].(*Term))
+			e.store(args[0], v, st)
+			return v
+		}
+		intrinsics["sync/atomic.Swap"+ty] = func(e *Exec, args []Value, st string) Value {
+			old := e.load(args[0], st)
+			e.store(args[0], args[1], st)
+			return old
+		}
+		intrinsics["sync/atomic.CompareAndSwap"+ty] = func(e *Exec, args []Value, st string) Value {
+			old := e.load(args[0], st).(*Term)
+			if e.branch(Eq(old, args[1].(*Term))) {
+				e.store(args[0], args[2], st)
+				return tTrue
+			}
+			return tFalse
+		}
+	}
+	// the atomic.X wrapper types are structs whose last field is the value
+	field := func(p Value) *Ptr {
+		pp := p.(*Ptr)
+		sv := navigate(pp.obj.val, pp.path).(*StructV)
+		np := append(append([]int{}, pp.path...), len(sv.f)-1)
+		return &Ptr{obj: pp.obj, path: np}
+	}
+	for _, ty := range []string{"Int32", "Uint32", "Int64", "Uint64", "Uintptr", "Bool"} {
+		ty := ty
+		pre := "(*sync/atomic." + ty + ")."
+		intrinsics[pre+"Load"] = func(e *Exec, args []Value, st string) Value {
+			v := e.load(field(args[0]), st).(*Term)
+			if ty == "Bool" {
+				return Not(Eq(v, BV(v.W, 0)))
+			}
+			return v
+		}
+		intrinsics[pre+"Store"] = func(e *Exec, args []Value, st string) Value {
+			v := args[1].(*Term)
+			if ty == "Bool" {
+				v = Ite(v, BV(32, 1), BV(32, 0))
+			}
+			e.store(field(args[0]), v, st)
+			return nil
+		}
+		intrinsics[pre+"Add"] = func(e *Exec, args []Value, st string) Value {
+			v := BinBV(OpAdd, e.load(field(args[0]), st).(*Term), args[1].(*Term))
+			e.store(field(args[0]), v, st)
+			return v
+		}
+		intrinsics[pre+"CompareAndSwap"] = func(e *Exec, args []Value, st string) Value {
+			old := e.load(field(args[0]), st).(*Term)
+			want, nv := args[1].(*Term), args[2].(*Term)
+			if ty == "Bool" {
+				want, nv = Ite(want, BV(32, 1), BV(32, 0)), Ite(nv, BV(32, 1), BV(32, 0))
+			}
+			if e.branch(Eq(old, want)) {
+				e.store(field(args[0]), nv, st)
+				return tTrue
+			}
+			return tFalse
+		}
+	}
+	intrinsics["(*sync.Mutex).Lock"] = func(e *Exec, args []Value, st string) Value { return nil }
+	intrinsics["(*sync.Mutex).Unlock"] = func(e *Exec, args []Value, st string) Value { return nil }
+	intrinsics["(*sync.RWMutex).Lock"] = func(e *Exec, args []Value, st string) Value { return nil }
+	intrinsics["(*sync.RWMutex).Unlock"] = func(e *Exec, args []Value, st string) Value { return nil }
+	intrinsics["(*sync.RWMutex).RLock"] = func(e *Exec, args []Value, st string) Value { return nil }
+	intrinsics["(*sync.RWMutex).RUnlock"] = func(e *Exec, args []Value, st string) Value { return nil }
+	intrinsics["sync.runtime_registerPoolCleanup"] = func(e *Exec, args []Value, st string) Value { return nil }
+}
